@@ -332,15 +332,15 @@ def twin_programs(rng, pygam):
     X[0], X[1] = 0.0, 1.0
     L = rng.choice([0.6, 2.5, 10.0])
     n = rng.choice([5, 6, 8])
-    a, b = rng.choice([(3, 5), (4, 6), (2, 4)])
+    a, b = rng.choice([(4, 6), (5, 7), (4, 5)])      # default spline_order 3 needs n_splines >= 4
     lists = [
         [SplineTerm(0, n_splines=n, basis='cp', lam=L), SplineTerm(1, n_splines=n, basis='ps', lam=L)],
         [SplineTerm(1, n_splines=n, basis='ps', lam=L), SplineTerm(0, n_splines=n, basis='cp', lam=L), SplineTerm(2, n_splines=n, lam=L)],
         [SplineTerm(0, n_splines=n, dtype='categorical', lam=L), SplineTerm(1, n_splines=n, lam=L)],
         [TensorTerm(SplineTerm(0, n_splines=a), SplineTerm(1, n_splines=b)), TensorTerm(SplineTerm(2, n_splines=b), SplineTerm(3, n_splines=a))],
         [TensorTerm(SplineTerm(0, n_splines=a, lam=L), LinearTerm(1, lam=L)), TensorTerm(LinearTerm(2, lam=L), SplineTerm(3, n_splines=a, lam=L))],
-        [TensorTerm(SplineTerm(0, n_splines=a, basis='cp', spline_order=1), SplineTerm(1, n_splines=b)),
-         TensorTerm(SplineTerm(2, n_splines=a, spline_order=1), SplineTerm(3, n_splines=b))],
+        [TensorTerm(SplineTerm(0, n_splines=a - 2, basis='cp', spline_order=1), SplineTerm(1, n_splines=b)),
+         TensorTerm(SplineTerm(2, n_splines=a - 2, spline_order=1), SplineTerm(3, n_splines=b))],
     ]
     out = []
     for terms in lists:
